@@ -64,6 +64,20 @@ NxUnknownQuoted ==
   <<"#NEXUS", "BEGIN", "FOO", ";", "BAR", "baz", ";", "END", ";",
     "BEGIN", "TREES", ";", "TREE", "'q w'", "=", "(", "'x y'", ":", "1", ",", "b", ":", "2.5", ")", "e", ":", "0", ";", "END", ";">>
 
+NxContInterleaved ==
+  <<"#NEXUS", "BEGIN", "DATA", ";", "DIMENSIONS", "NTAX", "=", "2", "NCHAR", "=", "4", ";",
+    "FORMAT", "DATATYPE", "=", "CONTINUOUS", "INTERLEAVE", ";",
+    "MATRIX", EOL, "a", "1.5", "2", EOL, "b", "3", "4.25", EOL, EOL, "a", "1", "2", EOL, "b", "3", "4", EOL, ";", "END", ";">>
+\* Mesquite style: two titled TAXA blocks sharing a label, both before the blocks that LINK to them
+NxLinkedBlocks ==
+  <<"#NEXUS", "BEGIN", "TAXA", ";", "TITLE", "x", ";", "DIMENSIONS", "NTAX", "=", "2", ";", "TAXLABELS", "a", "b", ";", "END", ";",
+    "BEGIN", "TAXA", ";", "TITLE", "y", ";", "DIMENSIONS", "NTAX", "=", "2", ";", "TAXLABELS", "a", "c", ";", "END", ";",
+    "BEGIN", "CHARACTERS", ";", "TITLE", "tt", ";", "LINK", "TAXA", "=", "x", ";", "DIMENSIONS", "NCHAR", "=", "2", ";",
+    "FORMAT", "DATATYPE", "=", "DNA", ";", "MATRIX", "a", "AC", "b", "GT", ";", "END", ";",
+    "BEGIN", "CHARACTERS", ";", "LINK", "TAXA", "=", "y", ";", "DIMENSIONS", "NCHAR", "=", "2", ";",
+    "FORMAT", "DATATYPE", "=", "DNA", ";", "MATRIX", "a", "AC", "c", "GT", ";", "END", ";",
+    "BEGIN", "TREES", ";", "LINK", "TAXA", "=", "x", ";", "TREE", "t", "=", "(", "a", ",", "b", ")", ";", "END", ";",
+    "BEGIN", "TREES", ";", "LINK", "TAXA", "=", "y", ";", "TREE", "u", "=", "(", "a", ",", "c", ")", ";", "END", ";">>
 NxMultistate ==
   <<"#NEXUS", "BEGIN", "DATA", ";", "DIMENSIONS", "NTAX", "=", "2", "NCHAR", "=", "4", ";",
     "FORMAT", "DATATYPE", "=", "DNA", "MATCHCHAR", "=", ".", ";",
@@ -99,6 +113,8 @@ AllDocs == <<
     Doc("NxTranslate", "nexus", NxTranslate, "dna", FALSE, FALSE),
     Doc("NxTwoTaxa", "nexus", NxTwoTaxa, "dna", FALSE, FALSE),
     Doc("NxUnknownQuoted", "nexus", NxUnknownQuoted, "dna", FALSE, FALSE),
+    Doc("NxContInterleaved", "nexus", NxContInterleaved, "continuous", FALSE, FALSE),
+    Doc("NxLinkedBlocks", "nexus", NxLinkedBlocks, "dna", FALSE, FALSE),
     Doc("NxMultistate", "nexus", NxMultistate, "dna", FALSE, FALSE),
     Doc("NxAnnotated", "nexus", NxAnnotated, "dna", FALSE, FALSE),
     Doc("NwAnnotated", "newick", NwAnnotated, "dna", FALSE, FALSE),
@@ -113,6 +129,30 @@ AllDocs == <<
     Doc("FaGap", "fasta", FaGap, "dna", FALSE, FALSE) >>
 DocIdx(fam) == {i \in 1..Len(AllDocs) : AllDocs[i].fam = fam}
 DocsOf(fam) == {AllDocs[i].toks : i \in DocIdx(fam)}
+
+\* ------------------------------------------------------------------ reader options
+\* Rows of reader keyword arguments (row 1 = the defaults).  The tree reader rows are a pairwise
+\* covering array of terminating_semicolon_required x suppress_leaf_node_taxa x
+\* suppress_internal_node_taxa x suppress_edge_lengths, with the rooting directives, store_ignored_blocks,
+\* preserve_underscores and case sensitivity rotated over them; the PHYLIP rows cover strict x
+\* interleaved (flip of the document's layout) x multispace_delimiter x ignore_invalid_chars x data type.
+TreeOpt(tsr, slt, sit, sel, rooting, sib, pu, cs) ==
+    [tsr |-> tsr, slt |-> slt, sit |-> sit, sel |-> sel, rooting |-> rooting, sib |-> sib, pu |-> pu, cs |-> cs]
+TreeOptionRows == <<
+    TreeOpt(TRUE,  FALSE, TRUE,  FALSE, "",                 FALSE, FALSE, FALSE),
+    TreeOpt(FALSE, TRUE,  TRUE,  FALSE, "force-rooted",     TRUE,  FALSE, TRUE),
+    TreeOpt(FALSE, FALSE, FALSE, TRUE,  "default-rooted",   FALSE, TRUE,  FALSE),
+    TreeOpt(TRUE,  TRUE,  FALSE, TRUE,  "force-unrooted",   TRUE,  TRUE,  TRUE),
+    TreeOpt(FALSE, TRUE,  FALSE, FALSE, "default-unrooted", FALSE, FALSE, FALSE),
+    TreeOpt(TRUE,  TRUE,  TRUE,  TRUE,  "",                 TRUE,  TRUE,  FALSE) >>
+LineOpt(strict, flip, multi, ign, dt) == [strict |-> strict, flip |-> flip, multi |-> multi, ign |-> ign, dt |-> dt]
+LineOptionRows == <<
+    LineOpt(FALSE, FALSE, FALSE, FALSE, "dna"),
+    LineOpt(TRUE,  FALSE, FALSE, TRUE,  "protein"),
+    LineOpt(FALSE, TRUE,  TRUE,  FALSE, "dna"),
+    LineOpt(TRUE,  TRUE,  FALSE, FALSE, "rna"),
+    LineOpt(FALSE, FALSE, TRUE,  TRUE,  "protein"),
+    LineOpt(FALSE, TRUE,  FALSE, TRUE,  "standard") >>
 
 \* ------------------------------------------------------------------ edit alphabets
 \* one representative per token class ("replace by / insert any class")
@@ -150,9 +190,12 @@ SpanDropsB(d, maxlen) == UNION {{Cut(d, i, j) : j \in (i + 1)..(IF i + maxlen - 
 SingleEdits(d, A, K, maxspan) ==
     Deletions(d) \cup Insertions(d, A \cup K) \cup Replacements(d, A) \cup SpanDropsB(d, maxspan)
 \* the edited documents of a family (the same sets in the models and in the input generator)
+\* quick tier: documents of more than LongDoc tokens are edited with a reduced alphabet
+LongDoc == 80
+RepsFor(d, fam, quick) == IF ~quick THEN ClassReps(fam) ELSE IF Len(d) > LongDoc THEN {} ELSE ClassRepsQ(fam)
+KwFor(d, fam, quick)   == IF ~quick THEN Keywords(fam) ELSE IF Len(d) > LongDoc THEN {"LINK"} \cap KeywordsQ(fam) ELSE KeywordsQ(fam)
 EditedDoc(d, fam, quick, maxspan) ==
-    Truncations(d) \cup SingleEdits(d, IF quick THEN ClassRepsQ(fam) ELSE ClassReps(fam),
-                                       IF quick THEN KeywordsQ(fam) ELSE Keywords(fam), maxspan)
+    Truncations(d) \cup SingleEdits(d, RepsFor(d, fam, quick), KwFor(d, fam, quick), maxspan)
 StringAlphabet == {"(", ")", ",", ":", ";", "a", "b", "1", "[c]"}
 Strings(maxlen) == UNION {[1..n -> StringAlphabet] : n \in 0..maxlen}
 Repeat(t, k) == [i \in 1..k |-> t]
